@@ -1049,10 +1049,15 @@ class OptionStore:
         if key in self.options:
             old_value = opt.value
             opt.set_value(new_value)
+            # An option that followed its parent until now stops doing so,
+            # which is a change even when the value happens to be the same.
+            changed |= opt.yielding and opt.parent is not None
             opt.yielding = False
         else:
             assert key.subproject is not None
             old_value = self.augments.get(key, opt.value)
+            # Likewise for a new override that equals the inherited value.
+            changed |= key not in self.augments
             self.augments[key] = new_value
 
         changed |= old_value != new_value
